@@ -317,6 +317,11 @@ func fuzzPhase(e *emitter, rng *rand.Rand, thorough bool, orders map[string]int)
 				sizeClasses[cls+"/writer-refused"]++
 				continue
 			}
+			if werr != nil && !validMeta(&m) {
+				// a writer that refuses, loudly, metadata JSON cannot hold loses nothing
+				sizeClasses["invalid-utf8/writer-refused"]++
+				continue
+			}
 			if werr != nil {
 				c := Case{Type: "case", ID: e.id, Kind: "fuzz-writer-failed", Gz: gz, Oracle: "writer-failed: " + werr.Error(),
 					Replay: toFuzz(&m, st), Members: []Member{}, Dec: []DecEntry{}, Lines: []Line{}}
